@@ -24,8 +24,8 @@ Proof. intros sc ws. apply (step_DevInv sc ws SlotInv stable_SlotInv). Qed.
 (** every change of any device during any event action is one of the guarded transformers; in particular a part
     enters a slot only by [t_accept*] (guard: both slots empty), moves input -> output only by [t_finish*]
     (guard: that very part is in the input slot, the output slot is empty), and identities are never rewritten *)
-Theorem C02_only_guarded_changes : forall nw fuel uops a w, R nw w (exec_fact fuel uops a w nw).
-Proof. intros. apply R_exec_fact. Qed.
+Theorem C02_only_guarded_changes : forall nw fuel uops a w, R MFull nw w (exec_fact fuel uops a w nw).
+Proof. intros. apply R_exec_fact. reflexivity. Qed.
 
 (** a device whose input is occupied or whose output is waiting refuses: no part is ever overwritten *)
 Theorem C02_accept_needs_empty_slots : forall x, handler_can_accept x = true -> d_part x = None /\ d_out x = None.
